@@ -130,9 +130,10 @@ def delSliceOp (s : PR α) (sl : Slice) : Option (PR α) :=
     | none => none
     | some (a, b, c) => some { s with toks := toks', dict := fixDel (rangeList a b c).reverse s.dict }
 
-/-- results.py:454-474 `__iadd__` -/
+/-- results.py:454-476 `__iadd__` -/
 def iadd (s o : PR α) : PR α :=
-  if !o.truthy then s            -- `if not other: return self`
+  if !o.truthy then              -- `if not other:` … `self._all_names |= other._all_names; return self`
+    { s with all := s.all ++ o.all.filter (fun n => n ∉ s.all) }
   else
     let s1 :=
       if o.dict.isEmpty then s     -- `if other._tokdict:`
@@ -302,7 +303,9 @@ def reinit (mk : List α → α) (s : PR α) (name : Option String) (asList moda
   | none => s0
   | some nm =>
     if nm = "" then s0 else
-    let s1 : PR α := { s0 with all := if modal then s0.all else [nm], name := some nm }   -- 188-191
+    -- 188-191: `if not modal: self._all_names.add(name)`
+    let s1 : PR α := { s0 with all := if modal then s0.all else (if nm ∈ s0.all then s0.all else s0.all ++ [nm]),
+                               name := some nm }
     if asList then setOcc s1 nm (mk s1.toks, 0)          -- 200-201
     else match s1.toks with
       | v :: _ => setOcc s1 nm (v, 0)                    -- 208
